@@ -156,14 +156,154 @@ theorem witness_line_starts_inside_char :
 /-- `"x\n"` is an AI line; a person appends the whitespace-only line `"  "` WITHOUT a final newline.
     The insertion has no newline and no substantive token, so it inherits the author of the text
     before it: line 2 is credited to the AI although a person typed it.  (With a final newline —
-    `lineStep_insert` — the same line is the person's.)  This is why every line of the model is
-    newline-terminated; the no-final-newline region of C01/C04 has its own known findings. -/
+    `lineStep_insert` — the same line is the person's.)  `lineStep` has newline-terminated lines only;
+    texts without final newline are `lineStepE` (§3 below), where this shape is excluded by `eofPlain`. -/
 theorem witness_no_final_newline_inherits :
     (match update [⟨.equal, [120, 10]⟩, ⟨.insert, [32, 32]⟩] [] []
         (fillUnattributed [120, 10] (lineAttrsToAttrs (priorLines 1 [['a', 'i']]) [120, 10] 0) human 8) human 9 with
      | .ok out => toLineAttrs out [120, 10, 32, 32]
      | .error e => .error e) = .ok [⟨1, 2, ['a', 'i'], none⟩] := by
   decide
+
+/-! ## 3. the last line without a final newline (agent B15)
+
+  `compute_diffs` compares lines with their terminator, so the last line `X` of a file without final
+  newline and its counterpart `X\n` are different lines; `X` goes into the changed hunk together with
+  the changed lines around it and the token-level diff of that hunk may pair its tokens with those of
+  its neighbours — a `Delete` lands inside the line and the deletion marker (zero-length attribution,
+  latest timestamp) gives the line to whoever deleted above / below it, or `Equal` tokens carry a
+  neighbour's author into it.
+
+  Repaired in /repo (fix "a line that becomes the last line of a file without a final newline keeps
+  its attribution"): the DELETE direction — the current content's unterminated last line is a line of
+  the hunk's previous side; the hunk is split around it, only its terminator is deleted
+  (`Model/LineStep.lean segsE`, shape `Equal X, Delete "\n"`).  NOT repaired: the APPEND direction (the
+  previous content's unterminated last line reappears terminated): tests/realistic_complex_edits.rs
+  `test_realistic_multi_file_commit` and tests/simple_additions.rs `test_with_duplicate_lines` pin that
+  such a line goes to the appender ("not natural, but this is how git works": git re-adds the line);
+  matching it breaks the first.  That shape is excluded by `eofPlain` and stays a known finding.
+
+  Proved here: `lineStepE` is a conservative extension of `lineStep` (`lineStepE_tt`, so every theorem
+  above speaks about it); the byte-level facts for the new segment shapes, for ANY segments around
+  them (`eof_kept_line_keeps_bytes`, `eof_terminator_is_reporters`, `eof_open_insert_is_reporters`);
+  decided regression theorems for the repaired finding's witnesses; witnesses for the excluded shapes.
+
+  NOT proved (full statement; tied by the correspondence suite `c16ls`, which generates texts without
+  final newline on either side in a third of its cases and compares the real pipeline, real diff, with
+  `lineStepE`, `lineRule` and `Sys.checkpointAttr`):
+
+      theorem lineStepE_follows_rule (oNl nNl) (al) (prevAuthors) (who) (ts ts0)
+          (hok : alOk al = true) (hlen : prevAuthors.length = (oldBodies al).length)
+          (hlast : (lastOk oNl (oldBodies al) && lastOk nNl (newBodies al)) = true)
+          (hplain : eofPlain oNl nNl al = true) :
+          lineStepE oNl nNl al prevAuthors who ts ts0 (tailSubst nNl al) = .ok (lineRule al prevAuthors who)
+
+  (missing: the line ranges / prior attributions of a text whose last line is not terminated). -/
+
+theorem segsE_tt (al : List Al) : segsE true true al = segsOf al := by
+  induction al with
+  | nil => rfl
+  | cons a r ih =>
+    cases a <;> simp [segsE, segsOf, Al.seg] <;> simpa [segsOf] using ih
+
+/-- **lineStepE_tt.** On texts that end with a newline the extended step IS `lineStep`. -/
+theorem lineStepE_tt (al : List Al) (prevAuthors : List Str) (who : Str) (ts ts0 : Nat)
+    (subst : List (Nat × Nat)) :
+    lineStepE true true al prevAuthors who ts ts0 subst = lineStep al prevAuthors who ts ts0 subst := by
+  simp only [lineStepE, lineStep, segsE_tt, textE, if_true]
+
+/-- **eof_kept_line_keeps_bytes.** A kept line `b` followed by the insertion or the deletion of its
+    terminator only (or by nothing): every byte of `b` is covered, after the update, by exactly the
+    (author, timestamp) pairs that covered its pre-image — whatever the segments `pre`, `post`
+    around it are (no move mappings). -/
+theorem eof_kept_line_keeps_bytes (pre post : List Seg) (b : Text) (subst : List (Nat × Nat))
+    (old : List Attr) (who : Str) (ts : Nat) (out : List Attr)
+    (h : update (pre ++ ⟨.equal, b⟩ :: post) subst [] old who ts = .ok out) :
+    ∀ (w : Str × Nat) (k : Nat), k < b.length →
+      (Covered out w ((newOf pre).length + k) ↔ Covered old w ((oldOf pre).length + k)) :=
+  unchanged_keeps_author pre post b subst [] old who ts out (srcOk_nil _ 0) h
+
+/-- **eof_terminator_is_reporters.** The terminator a kept last line gains is the reporter's byte
+    (it contains a newline); on a line with other content a whitespace-only range is not a candidate
+    of the line projection, so it does not decide the line. -/
+theorem eof_terminator_is_reporters (pre post : List Seg) (b : Text) (subst : List (Nat × Nat))
+    (old : List Attr) (who : Str) (ts : Nat) (out : List Attr)
+    (h : update (pre ++ ⟨.equal, b⟩ :: ⟨.insert, [10]⟩ :: post) subst [] old who ts = .ok out) :
+    Covered out (who, ts) ((newOf pre).length + b.length) ∧
+      ∀ w, Covered out w ((newOf pre).length + b.length) → w = (who, ts) := by
+  have e : pre ++ ⟨.equal, b⟩ :: ⟨.insert, [10]⟩ :: post = (pre ++ [⟨.equal, b⟩]) ++ ⟨.insert, [10]⟩ :: post := by
+    simp
+  rw [e] at h
+  have hn : (newOf (pre ++ [⟨.equal, b⟩])).length = (newOf pre).length + b.length := by
+    simp [newOf_append, newOf]
+  have := new_text_is_reporters (pre ++ [⟨.equal, b⟩]) post [10] subst [] old who ts out
+    (rangesForInsertion_nil _) (Or.inl (by decide)) h ((newOf pre).length + b.length)
+    (by rw [hn]; exact Nat.le_refl _) (by rw [hn]; simp)
+  exact this
+
+/-- **eof_open_insert_is_reporters.** An inserted last line without final newline that has
+    non-whitespace content (substantive, by the segment contract) is the reporter's at every byte. -/
+theorem eof_open_insert_is_reporters (pre post : List Seg) (b : Text) (subst : List (Nat × Nat))
+    (old : List Attr) (who : Str) (ts : Nat) (out : List Attr)
+    (hsub : rangesIntersect subst (newOf pre).length ((newOf pre).length + b.length) = true)
+    (h : update (pre ++ ⟨.insert, b⟩ :: post) subst [] old who ts = .ok out) :
+    ∀ p, (newOf pre).length ≤ p → p < (newOf pre).length + b.length →
+      Covered out (who, ts) p ∧ ∀ w, Covered out w p → w = (who, ts) :=
+  new_text_is_reporters pre post b subst [] old who ts out (rangesForInsertion_nil _) (Or.inr hsub) h
+
+/-! ### regression theorems: the witnesses of the repaired finding, through the whole pipeline -/
+
+/-- finding `last-line-without-newline-credited-to-session-that-deleted-below`, witness of C01 seed
+    700713: `"p }\n" "q }\n"(s1) "r {\n"(person) "s /"(s1)` without final newline; session `z` deletes
+    the two s1 lines around the person's line, which becomes the last line.  It stays the person's
+    (before the fix: `z`'s, through a deletion marker inside the line). -/
+theorem regression_delete_around_last_line :
+    eofPlain false false
+      [.keep [112, 32, 125], .delete [113, 32, 125], .keep [114, 32, 123], .delete [115, 32, 47]] = true ∧
+    lineStepE false false
+      [.keep [112, 32, 125], .delete [113, 32, 125], .keep [114, 32, 123], .delete [115, 32, 47]]
+      [human, ['s', '1'], human, ['s', '1']] ['z'] 9 0 [] = .ok [human, human] := by decide
+
+/-- session `z` deletes the line below A's line `X`, which becomes the last line without newline -/
+theorem regression_delete_below_last_line :
+    eofPlain true false [.keep [97], .keep [88], .delete [89]] = true ∧
+    lineStepE true false [.keep [97], .keep [88], .delete [89]] [human, ['A'], ['A']] ['z'] 9 0 []
+      = .ok [human, ['A']] := by decide
+
+/-- only the final newline is dropped: nothing changes hands -/
+theorem regression_final_newline_dropped :
+    eofPlain true false [.keep [97], .keep [88]] = true ∧
+    lineStepE true false [.keep [97], .keep [88]] [human, ['A']] ['z'] 9 0 [] = .ok [human, ['A']] := by
+  decide
+
+/-- both contents without final newline, a line inserted above the shared last line and one
+    replaced: the last line (equal on both sides) keeps its author -/
+theorem regression_both_open_last_line_kept :
+    eofPlain false false [.keep [97], .delete [98], .insert [99], .keep [88]] = true ∧
+    lineStepE false false [.keep [97], .delete [98], .insert [99], .keep [88]] [human, ['A'], ['A']] ['z'] 9 0 []
+      = .ok [human, ['z'], ['A']] := by decide
+
+/-! ### the shapes `eofPlain` excludes -/
+
+/-- the APPEND direction is not claimed: `eofPlain` is false as soon as the previous content's
+    unterminated last line is kept and gains a terminator (known finding of C01 / C04
+    `last-line-without-newline-credited-to-session-that-deleted-below`, append half; replayed on the
+    real code by corpus/C16/linestep.jsonl `eof-append-*`) -/
+theorem witness_eof_append_direction_excluded :
+    eofPlain false true [.keep [97], .keep [88], .insert [90]] = false ∧
+    eofPlain false false [.keep [97], .keep [88], .insert [90]] = false := by decide
+
+/-- an inserted whitespace-only last line without newline inherits (`witness_no_final_newline_inherits`
+    through `lineStepE`): whitespace without a newline is nobody's edit for `transform_attributions`. -/
+theorem witness_eof_blank_open_insert_inherits :
+    eofPlain true false [.keep [120], .insert [32, 32]] = false ∧
+    lineStepE true false [.keep [120], .insert [32, 32]] [['a', 'i']] human 9 0
+      (tailSubst false [.keep [120], .insert [32, 32]]) = .ok [['a', 'i'], ['a', 'i']] := by decide
+
+/-- non-vacuity of `eofPlain` / `lastOk` on texts without final newline -/
+example : eofPlain false false [.keep [97], .delete [89], .keep [88]] = true ∧
+    lastOk false (oldBodies [.keep [97], .delete [89], .keep [88]]) = true ∧
+    lastOk false (newBodies [.keep [97], .delete [89], .keep [88]]) = true := by decide
 
 end GitAi.LineStep
 
@@ -178,3 +318,13 @@ end GitAi.LineStep
 #print axioms GitAi.LineStep.witness_newline_in_body
 #print axioms GitAi.LineStep.witness_line_starts_inside_char
 #print axioms GitAi.LineStep.witness_no_final_newline_inherits
+#print axioms GitAi.LineStep.lineStepE_tt
+#print axioms GitAi.LineStep.eof_kept_line_keeps_bytes
+#print axioms GitAi.LineStep.eof_terminator_is_reporters
+#print axioms GitAi.LineStep.eof_open_insert_is_reporters
+#print axioms GitAi.LineStep.regression_delete_around_last_line
+#print axioms GitAi.LineStep.regression_delete_below_last_line
+#print axioms GitAi.LineStep.regression_final_newline_dropped
+#print axioms GitAi.LineStep.regression_both_open_last_line_kept
+#print axioms GitAi.LineStep.witness_eof_append_direction_excluded
+#print axioms GitAi.LineStep.witness_eof_blank_open_insert_inherits
